@@ -186,6 +186,11 @@ def fixed_corpus():
             (e2, 'scalar', C.curl(b2 ** x2 * F2), 'corpus:curl((h^2+1)^x*F)'),
             (e2, 'scalar', C.div(b2 ** (x2 * y2) * C.grad(h2)), 'corpus:div((h^2+1)^(xy)*grad h)'),
             (e3, 'vector', C.curl((h ** 2 + 1) ** e3.coords[2] * F), 'corpus:curl((h^2+1)^z*F) 3d')]
+    # a generic operator in the EXPONENT of a power is lowered too (seeded change C01-8 lowered the base only)
+    out += [(e2, 'scalar', b2 ** C.div(F2), 'corpus:(h^2+1)^div(F)'),
+            (e2, 'scalar', sympy.Integer(2) ** C.dot(F2, G2), 'corpus:2^dot(F,G)'),
+            (e2, 'vector', b2 ** C.laplace(e2.sf[0]) * C.grad(e2.sf[0]), 'corpus:(h^2+1)^laplace(f)*grad f'),
+            (e2, 'scalar', b2 ** C.curl(G2) + C.div(F2), 'corpus:(h^2+1)^curl(G)+div F')]
     e1 = Env(1, False, tag='k')
     F1, G1, H1 = e1.vf
     # finding C01-1d-mixed (fixed): a scalar form and a 1x1 matrix are added as 1x1 matrices
